@@ -45,11 +45,9 @@ def classify_common(rec):
             return "oracle-generic-setop"      # generic spells set operations with ALL/DISTINCT, which SQLite does not parse
         if "same number of result columns" in msg and "append" in kinds:
             return "F28-append-prune"
-        if "syntax error" in msg and bare_offset(sql) \
+        if "syntax error" in msg and bare_offset(sql) and rec["target"] == "sql.generic" \
                 and any(s.kind == "take" and s.info.get("rng", (None, 0))[1] is None for s in rec["program"].steps):
-            return "F27-offset-without-limit" if rec["target"] == "sql.sqlite" else "oracle-generic-offset"
-        if "--" in sql and has_neg(rec["prql"]):
-            return "F03-double-minus"
+            return "oracle-generic-offset"     # generic SQL may use OFFSET without LIMIT; SQLite cannot run it (F27 is repaired for sql.sqlite)
     if v == "panic":
         p = (rec.get("compile") or {}).get("panic", {})
         if "name of this column has not been to be set" in p.get("msg", "") and "gen_expr.rs" in p.get("loc", ""):
@@ -71,8 +69,6 @@ def classify_common(rec):
             return "oracle-generic-divf"      # generic `/` is emitted without `* 1.0`; SQLite then divides integers (F16: an artefact of running generic SQL on SQLite)
         if "append" in kinds and append_pruned(sql):
             return "F28-append-prune"
-        if "--" in sql and has_neg(rec["prql"]):
-            return "F03-double-minus"
         if "group_agg" in kinds and re.search(r"GROUP BY (?:[^,()]+, )*-?\d+(?:,| |$)", sql):
             return "F32-group-by-constant"
         if re.search(r"SELECT NULL FROM", sql) and "aggregate" in kinds:
